@@ -13,6 +13,11 @@ COMMON_ASSUMPTIONS = [
 
 Q = lambda *a: list(a)
 
+# thorough-only harness variants (deeper bounds); left out of every quick run
+DEEP = ["vpH_C02_T_churn2", "vpH_C03_T_unreachable_fast", "vpH_C04_T_validate_racing", "vpH_C07_T_leftover_symrand",
+        "vpH_C08_T_causes_symrand", "vpH_C09_T_stop_leader_slow", "vpH_C11_T_grace5", "vpH_C12_T_health7",
+        "vpH_C13_T_follower_arb", "vpH_C15_wrapped2"]
+
 PROPS = {
     "C16": {
         "groups": [{"run": "^vpH_C16_", "args": ["-solver", "z3-new", "-timeout-ms", "30000"], "quick": [], "thorough": ["-timeout-ms", "60000"]}],
@@ -25,7 +30,7 @@ PROPS = {
 }
 
 PROPS["C15"] = {
-    "groups": [{"run": "^vpH_C15_(leaves|wrapped1)$"}, {"run": "^vpH_C15_wrapped2$", "thorough_only": True}],
+    "groups": [{"run": "^vpH_C15_"}],
     "bounds": {"quick": "error values = 17 leaf kinds (library sentinels and error types, context errors, errors.New(text), and the nats.go client's *APIError 10071 / ErrKeyNotFound / ErrTimeout / ErrNoResponders / ErrConnectionClosed values) under 0 or 1 of 4 wrappers (fmt.Errorf %w with free text, ElectionError, TokenValidationError, the constructor's own wrapper); every message text, operation name, time-out and sequence number symbolic",
                "thorough": "as quick plus wrap depth 2 (all 16 wrapper pairs)"},
     "outside": "wrap depth > 2; Unwrap() []error trees (errors.Join); texts whose lower-casing is not ASCII-like",
@@ -46,7 +51,7 @@ PROPS["C17"] = {
     "level_note": "float64 arithmetic is modelled as real arithmetic with a relative rounding error per operation (full IEEE encoding does not finish); math.Pow is uninterpreted under the stated contract; trusted: front end, executor, z3.",
 }
 PROPS["C03"] = {
-    "groups": [{"run": "^vpH_C03_T_(changed|unreachable)$"}, {"run": "^vpH_C03_T_unreachable_fast$", "thorough_only": True, "args": ["-max-paths", "800000"]}],
+    "groups": [{"run": "^vpH_C03_T_"}],
     "bounds": {"quick": "one real election (Start -> attemptAcquire -> becomeLeader -> heartbeatLoop, handleHeartbeatFailure, IsPermanentError) against the reference store; timing configurations (H,TTL) in {(1s,3s),(4s,12s)}, both error dialects (mock texts / nats.go values); request latency of every store operation symbolic in [0, time-out); the change (record replaced or deleted by another writer) or the beginning of the outage at a symbolic instant in [0, 2.5H]; during the outage each operation independently fails after a symbolic delay in [0,time-out] or never answers, applied or not; at most 7 store operations",
                "thorough": "as quick plus (H,TTL)=(200ms,10s) (time-out = 5H) with the outage beginning in [0, 2.5H + time-out]"},
     "outside": "more than ~3 heartbeats before the fault (the failure counter is reset by every success, so longer histories repeat explored shapes: stated, not proved); scheduling latency; expiry of the record underneath a leader whose refreshes succeed (cannot happen: TTL >= 3H)",
@@ -63,7 +68,7 @@ PROPS["C12"] = {
     "level_note": "Exhaustive over verdict sequences up to threshold+2 ticks; data is concrete here (the solver decides clock-related branches only); reductions R1/R2.",
 }
 PROPS["C07"] = {
-    "groups": [{"run": "^vpH_C07_T_(leftover|stale_events)$"}, {"run": "^vpH_C07_T_leftover_symrand$", "thorough_only": True}],
+    "groups": [{"run": "^vpH_C07_T_"}],
     "bounds": {"quick": "one real election started next to a live foreign record (follower with watcher, 500ms periodic check and first acquisition round running); fault-free store with immediate answers; the foreign owner's shutdown (record deleted) at a symbolic instant in [0,600ms], i.e. at any point of the follower's first acquisition round (jitter/backoff draws fixed at rand=0.5); horizon 2.5 heartbeats after the election (H=1s). Stale notifications: after the leader has settled one late event is injected into its watch channel: an old event naming the previous owner, a duplicate of its own latest write, or the previous owner's old deletion marker",
                "thorough": "as quick with every jitter/backoff draw symbolic"},
     "outside": "store latencies above zero in these scenarios; more than one stale notification; other instances racing for the vacancy (their failed Creates leave the store unchanged; the environment here only removes the old record)",
